@@ -469,6 +469,16 @@ def check_range_partition(rule, idx) -> None:
             tgts = [x.target] if isinstance(x, ast.For) else [g_.target for g_ in x.generators] if isinstance(x, (ast.ListComp, ast.GeneratorExp)) else []
             if any(isinstance(t_, ast.Tuple) and [norm(e_) for e_ in t_.elts] == [P_, Q_] for t_ in tgts):
                 bound_ok = True
+            for t_ in tgts:
+                if isinstance(t_, ast.Name):
+                    # `for g in groups: ib1, ib2 = g`  or  g[0], g[1]
+                    if (P_, Q_) == (f"{t_.id}[0]", f"{t_.id}[1]"):
+                        bound_ok = True
+                    if isinstance(x, ast.For):
+                        for st_ in x.body:
+                            if isinstance(st_, ast.Assign) and len(st_.targets) == 1 and isinstance(st_.targets[0], ast.Tuple) \
+                                    and [norm(e_) for e_ in st_.targets[0].elts] == [P_, Q_] and norm(st_.value) == t_.id:
+                                bound_ok = True
         okg = okg and bound_ok
     rule.check(okg, "the window test of a group is the max / min over exactly its bands [ib1, ib2)", gi, lo_in[0][2],
                "the in-range test is not taken over max(Ebandmax[ib1:ib2]) / min(Ebandmin[ib1:ib2]) of the group's own bands")
